@@ -38,7 +38,7 @@ LLE = {'base_addressx': 1, 'startx_endx': 2, 'startx_length': 3, 'offset_pair': 
        'base_address': 6, 'start_end': 7, 'start_length': 8}
 RLE = {'base_addressx': 1, 'startx_endx': 2, 'startx_length': 3, 'offset_pair': 4, 'base_address': 5,
        'start_end': 6, 'start_length': 7}
-F = {'data1': 0x0b, 'data4': 0x06, 'data8': 0x07, 'sec_offset': 0x17, 'block1': 0x0a, 'block2': 0x03, 'exprloc': 0x18,
+F = {'data1': 0x0b, 'data4': 0x06, 'data8': 0x07, 'sec_offset': 0x17, 'block1': 0x0a, 'block2': 0x03, 'block4': 0x04, 'block': 0x09, 'exprloc': 0x18,
      'udata': 0x0f, 'rnglistx': 0x23, 'loclistx': 0x22, 'sdata': 0x0d}
 
 
@@ -205,14 +205,23 @@ def gen_v5(rng, le, asz):
         aoff = len(abbrev)
         # code 1: unit entry; 2: variable with location list (+ optional locviews: code 5); 3: block with ranges;
         # 4: variable with exprloc; 6: constant; 7: subprogram frame_base -> list
-        abbrev += uleb(1) + uleb(0x11) + b'\x01' + uleb(0x73) + uleb(0x17) + uleb(0x74) + uleb(0x17) + uleb(0x8c) + uleb(0x17) + b'\0\0'
+        # the unit entry may carry DW_AT_ranges itself (compilers do that), before or after the base attributes it depends on
+        U['top_ranges'] = rng.choice([None, 'first', 'last']) if U['rng']['lists'] else None
+        top_r = uleb(0x55) + uleb(F[rform])
+        abbrev += uleb(1) + uleb(0x11) + b'\x01' + (top_r if U['top_ranges'] == 'first' else b'') + uleb(0x73) + uleb(0x17) + \
+            uleb(0x74) + uleb(0x17) + uleb(0x8c) + uleb(0x17) + (top_r if U['top_ranges'] == 'last' else b'') + b'\0\0'
         abbrev += uleb(2) + uleb(0x34) + b'\0' + uleb(0x02) + uleb(F[lform]) + b'\0\0'
         abbrev += uleb(3) + uleb(0x0b) + b'\0' + uleb(0x55) + uleb(F[rform]) + b'\0\0'
         abbrev += uleb(4) + uleb(0x34) + b'\0' + uleb(0x02) + uleb(F['exprloc']) + b'\0\0'
         abbrev += uleb(5) + uleb(0x34) + b'\0' + uleb(0x02) + uleb(F[lform]) + uleb(0x2137) + uleb(0x17) + b'\0\0'
         abbrev += uleb(6) + uleb(0x34) + b'\0' + uleb(0x1c) + uleb(F['data4']) + b'\0\0'
         abbrev += uleb(7) + uleb(0x2e) + b'\0' + uleb(0x40) + uleb(F[lform]) + b'\0\0' + b'\0'
-        body = uleb(1) + I(U['addr_base'], osz) + I(U['rng']['table_off'], osz) + I(U['loc']['table_off'], osz)
+        top_v = b''
+        if U['top_ranges']:
+            U['top_index'] = rng.randrange(len(U['rng']['lists']))
+            top_v = uleb(U['top_index']) if U['rng']['use_table'] else I(U['rng']['lists'][U['top_index']]['off'], osz)
+        body = uleb(1) + (top_v if U['top_ranges'] == 'first' else b'') + I(U['addr_base'], osz) + I(U['rng']['table_off'], osz) + \
+            I(U['loc']['table_off'], osz) + (top_v if U['top_ranges'] == 'last' else b'')
         refs = []
         for i, L in enumerate(U['loc']['lists']):
             v = U['loc']['views'][i]
@@ -251,7 +260,15 @@ def check_v5(rng, sh):
     feats = set()
     for cu, U in zip(cus, units):
         dies = [d for d in cu.iter_DIEs() if not d.is_null()]
-        rd = [d for d in dies if 'DW_AT_ranges' in d.attributes]
+        rd = [d for d in dies if 'DW_AT_ranges' in d.attributes and d.tag != 'DW_TAG_compile_unit']
+        if U['top_ranges']:
+            a = cu.get_top_DIE().attributes['DW_AT_ranges']
+            L = U['rng']['lists'][U['top_index']]
+            if a.value != L['off']:
+                raise Bad('rnglist attribute of the unit entry (%s, %s the base attributes) does not resolve to the list offset' % (a.form, 'before' if U['top_ranges'] == 'first' else 'after'), got=a.value, want=L['off'])
+            poison(st, rng)
+            if dr(rl.get_range_list_at_offset(a.value, cu)) != L['ents']:
+                raise Bad('range list of the unit entry differs')
         ld = [d for d in dies if 'DW_AT_location' in d.attributes and d.attributes['DW_AT_location'].form != 'DW_FORM_exprloc']
         for d, L in zip(rd, U['rng']['lists']):
             a = d.attributes['DW_AT_ranges']
@@ -329,7 +346,7 @@ def check_v5(rng, sh):
         raise Bad('iter_location_lists differs%s' % (' (trailing gap in a block)' if gaps else ''), got=len(itl), want=len(alll))
     sh.held()
     for U in units:
-        sh.sig(('v5', le, asz, U['fmt'], U['rform'], U['lform'], bool(U['loc']['trailing']), any(U['loc']['views']), len(units) > 1))
+        sh.sig(('v5', le, asz, U['fmt'], U['rform'], U['lform'], bool(U['loc']['trailing']), any(U['loc']['views']), len(units) > 1, U['top_ranges']))
     for f in feats:
         sh.sig(f + (asz, le))
     sh.sample({'gen': 'v5', 'units': [(U['fmt'], U['rform'], U['lform'], len(U['rng']['lists']), len(U['loc']['lists'])) for U in units]}, kind='v5')
@@ -388,7 +405,7 @@ def gen_v4(rng, le, asz):
             rexp.append((o, ents))
         lf = 'sec_offset' if ver >= 4 else ('data4' if fmt == 32 else rng.choice(['data4', 'data8']))
         w = {'data4': 4, 'data8': 8, 'sec_offset': osz}[lf]
-        ef = 'exprloc' if ver >= 4 else rng.choice(['block1', 'block2'])
+        ef = 'exprloc' if ver >= 4 else rng.choice(['block1', 'block2', 'block4', 'block'])
         aoff = len(abbrev)
         abbrev += uleb(1) + uleb(0x11) + b'\x01' + b'\0\0' + uleb(2) + uleb(0x34) + b'\0' + uleb(0x02) + uleb(F[lf]) + b'\0\0'
         abbrev += uleb(3) + uleb(0x0b) + b'\0' + uleb(0x55) + uleb(F[lf]) + b'\0\0'
@@ -403,7 +420,8 @@ def gen_v4(rng, le, asz):
         for o, _ in rexp:
             body += uleb(3) + I(o, w)
         expr = bytes([0x91, 0x7c])
-        pre = {'exprloc': uleb(len(expr)), 'block1': bytes([len(expr)]), 'block2': I(len(expr), 2)}[ef]
+        pre = {'exprloc': uleb(len(expr)), 'block1': bytes([len(expr)]), 'block2': I(len(expr), 2), 'block4': I(len(expr), 4),
+               'block': uleb(len(expr))}[ef]
         body += uleb(4) + pre + expr
         if ver >= 3:
             body += uleb(5) + bytes([8])
@@ -446,7 +464,7 @@ def check_v4(rng, sh):
                         raise Bad('location attribute not recognised (%s in v%d)' % (a.form, ver))
                     poison(st, rng)
                     r = lp.parse_from_attribute(a, ver, d)
-                    if a.form in ('DW_FORM_exprloc', 'DW_FORM_block1', 'DW_FORM_block2'):
+                    if a.form in ('DW_FORM_exprloc', 'DW_FORM_block1', 'DW_FORM_block2', 'DW_FORM_block4', 'DW_FORM_block'):
                         if not isinstance(r, LocationExpr) or bytes(r.loc_expr) != U['expr']:
                             raise Bad('expression attribute misclassified (%s in v%d)' % (a.form, ver))
                     else:
